@@ -27,6 +27,26 @@ RULE_CACHE = (
     "the class K_cache_collision is registered for C08")
 
 
+RULE_QUERIES = (
+    "sequences of 2-6 queries served by ONE EnergyModelService instance (library of 2-3 vehicles, affine predictors, no "
+    "prediction cache): for one battery vehicle the starting_soc_percent values differ but round to the same whole percent "
+    "(80.0 / 80.4, 35 / 34.6, absent or 100 / 100.3, 0 / -0.2, k+-0.45 ...), in both orders, interleaved with queries for the "
+    "other vehicles; every query is followed by a 1-4 edge route, estimate_traversal and best_case_energy and is judged "
+    "HISTORY-FREE: M = the FN model run from scratch for that query (bit-exact), S = the exact-rational checker (SOC starts "
+    "at the query's value, out-of-range rejected, edge law). non-trivial = the sequence contains two different charges for "
+    "one vehicle with the same rounded value")
+RULE_BUILDERS = (
+    "vehicles built from configuration JSON by the REAL EnergyModelBuilder / VehicleBuilder (build_conventional, "
+    "build_battery_electric, build_plugin_hybrid, get_model_record_from_params, SpeedLookupBuilder) over the bundled "
+    "Smartcore models (Camry, Bolt, Volt CS/CD); battery_capacity given in EVERY EnergyUnit (deterministic family first: "
+    "bev/phev x 3 units x 2), 1-6 edges, 1-4 queries on one service. The predictor is the real random forest, so there is "
+    "no M line; S judges what needs no predictor: start charge = query value / rejection, SOC in [0,100], SOC step = "
+    "clamp(soc - 100 * dE / capacity) with dE the electric energy the implementation itself recorded and capacity the "
+    "configured value, both in battery_capacity_unit, PHEV switch, best case = best_case_energy converted into the battery "
+    "unit (judged in every unit combination). non-trivial = the charge moves by more "
+    "than half a percent")
+
+
 def classify(case, i, m, s):
     if case.get("collision"):
         return "K_cache_collision"
@@ -59,6 +79,10 @@ def run(chk):
         "battery capacity > 0; the predictor respects equality of rationals",
         "state model = EnergyTraversalModel::state_features() of the vehicle over the speed-table time model "
         "(feature units may differ from the engine's: they are universally quantified)",
+        "the model has no per-service state besides the prediction caches: every query is specified history-free, and the "
+        "queries / builders streams hold one real service instance to that over sequences of queries",
+        "vehicles built from configuration (energy_model_vehicle_builders.rs, energy_model_builder.rs) are exercised and judged "
+        "by the checker on the implementation's own recorded energy; the builders themselves are not modelled",
         "cached predictions: covered by the correspondence stream and by the per-call theorem cache_transparent; "
         "key collisions are the known limitation D-CACHE"]
     # the unit tables the model imports are regenerated from the Rust sources on every run (owned by C09)
@@ -75,7 +99,7 @@ def run(chk):
     judge = ["--judge-collisions"] if "K_cache_collision" in chk.finding_ids() else []
     # corpus first: witnesses of the seeded mutations, boundary cases and the D-CACHE exhibit, replayed in full
     if not chk.replay:
-        for stream in ("route", "cache"):
+        for stream in ("route", "cache", "queries", "builders"):
             descs = []
             for f in sorted(glob.glob(os.path.join(vf.ROOT, "corpus", "C08", "*.json"))):
                 v = json.load(open(f))
@@ -87,10 +111,12 @@ def run(chk):
             os.makedirs(cdir, exist_ok=True)
             batch = os.path.join(cdir, "corpus_cases.json")
             json.dump({"cases": descs}, open(batch, "w"))
-            rc = vf.run_stream(binp, stream, len(descs), chk.seed, os.path.join(cdir, "run"), extra=judge, shards=4, replay=batch)
+            cextra = judge if stream in ("route", "cache") else []
+            rc = vf.run_stream(binp, stream, len(descs), chk.seed, os.path.join(cdir, "run"), extra=cextra, shards=4, replay=batch)
             rc.name = "corpus_" + stream
             chk.add_stream(rc, "corpus/C08/*.json of stream %s replayed with full payloads" % stream)
-            vf.compare(chk, rc, classify=classify, binpath=binp, extra=judge, stream_label="corpus_" + stream)
+            vf.compare(chk, rc, model_tag=("S" if stream == "builders" else "M"), classify=classify, binpath=binp,
+                       extra=cextra, stream_label="corpus_" + stream)
             if stream == "cache":
                 corpus_verdicts = rc.model.get("V", {})
                 chk.coverage["d_cache_exhibit_corpus"] = sorted(set(corpus_verdicts.values()))[:5]
@@ -113,6 +139,16 @@ def run(chk):
             "judged": bool(extra),
             "note": "known design limitation D-CACHE (DESIGN.md section 5): the cache returns the rate of whichever "
                     "colliding (rounded) input was cached first; the model reproduces it bit for bit"}
+    if _is(chk, "queries"):
+        r3 = vf.run_stream(binp, "queries", 120 if quick else 2500, chk.seed, os.path.join(chk.outdir, "queries"), replay=chk.replay)
+        chk.add_stream(r3, RULE_QUERIES)
+        vf.compare(chk, r3, classify=classify, binpath=binp)
+    if _is(chk, "builders"):
+        r4 = vf.run_stream(binp, "builders", 80 if quick else 1200, chk.seed, os.path.join(chk.outdir, "builders"),
+                           replay=chk.replay)
+        chk.add_stream(r4, RULE_BUILDERS)
+        # no M line in this stream: the implementation's output is compared with the checker's echo only
+        vf.compare(chk, r4, model_tag="S", classify=classify, binpath=binp)
     if chk.broken_obligation:
         chk.violation("broken-obligation", "proofs", {"obligations": chk.broken_obligation}, "does not check", "Qed",
                       found=False, key="obligation")
